@@ -1,0 +1,39 @@
+//go:build verif
+
+// Contracts for package internal/list (comment-only; read by /verif/cmd/govc).
+package list
+
+// ASSUMED interface of the intrusive list as a counter plus element values (the doubly linked,
+// shared mutable elements are outside the generator's pointer model).
+//@ type Element opaque
+//@ func (*Element).Value
+//@   pure
+//@ func (*Element).GetID
+//@   pure
+//@   opt uf item_id
+//@ func Item.GetID
+//@   pure
+//@   opt uf item_id
+//@ func (*List).Size
+//@   trusted
+//@   noframe
+//@   ensures result == gint("len", l) && result >= 0
+//@ func (*List).First
+//@   trusted
+//@   noframe
+//@   ensures isnil(result) == (gint("len", l) == 0)
+//@ func (*List).PushBack
+//@   trusted
+//@   noframe
+//@   modifies gint("len", l)
+//@   ensures gint("len", l) == old(gint("len", l)) + 1 && !isnil(result) && Element.GetID(result) == Item.GetID(v)
+//@ func (*List).PushFront
+//@   trusted
+//@   noframe
+//@   modifies gint("len", l)
+//@   ensures gint("len", l) == old(gint("len", l)) + 1 && !isnil(result) && Element.GetID(result) == Item.GetID(v)
+//@ func (*List).Remove
+//@   trusted
+//@   noframe
+//@   modifies gint("len", l)
+//@   ensures gint("len", l) == old(gint("len", l)) - 1
